@@ -551,6 +551,7 @@ _C = "phyclone/smc/samplers/conditional.py"
 _S = "phyclone/smc/samplers/base.py"
 _PG = "phyclone/mcmc/particle_gibbs.py"
 SELFTEST = [
+    {"name": "P1-outliers-not-shuffled", "kind": "break", "rule": ["P1", "P2"], "file": "phyclone/smc/utils.py", "old": "            rng.shuffle(outliers)\n", "new": ""},
     {"name": "K1-drop-log_q-arm", "kind": "break", "rule": "K1", "file": _B, "old": "log_w = particle.log_p + particle.log_pdf - log_q", "new": "log_w = particle.log_p + particle.log_pdf"},
     {"name": "K1-drop-parent-log_pdf", "kind": "break", "rule": "K1", "file": _B, "old": "particle.log_pdf - parent_particle.log_pdf - log_q", "new": "particle.log_pdf - log_q"},
     {"name": "K2-swap-log_p_one", "kind": "break", "rule": "K2", "file": _S, "old": "return particle.log_w - particle.log_p + particle.log_p_one", "new": "return particle.log_w - particle.log_p_one + particle.log_p"},
